@@ -102,6 +102,20 @@ class HandlerBoom(Exception):
     pass
 
 
+class OddStr(Exception):
+    """A user exception whose __str__ is itself faulty (returns a non-str)."""
+
+    def __str__(self):
+        return 0xC000
+
+
+class OddRepr(Exception):
+    """... and one whose __repr__ raises."""
+
+    def __repr__(self):
+        raise KeyError("repr of the exception failed")
+
+
 class _Factory:
     """Callable producing the exception instance: `name` or `name:noargs` (an instance with EMPTY .args, as produced
     by a bare `raise ValueError`, a failed assert without message, queue.Empty from get_nowait(), StopIteration)."""
@@ -125,12 +139,13 @@ def _exc_class_plain(name):
             "TimeoutError": TimeoutError, "ConnectionResetError": ConnectionResetError, "AttributeError": AttributeError,
             "StopIteration": StopIteration, "NotImplementedError": NotImplementedError, "queue.Empty": queue.Empty,
             "socket.timeout": socket.timeout, "AssertionError": AssertionError, "TypeError": TypeError,
-            "HandlerBoom": HandlerBoom}[name]
+            "HandlerBoom": HandlerBoom, "OddStr": OddStr, "OddRepr": OddRepr}[name]
 
 
 EXC_NAMES = ["RuntimeError", "ValueError", "KeyError", "OSError", "TimeoutError", "ConnectionResetError", "AttributeError",
              "StopIteration", "NotImplementedError", "queue.Empty", "AssertionError", "TypeError", "HandlerBoom",
-             "ValueError:noargs", "AssertionError:noargs", "queue.Empty:noargs", "StopIteration:noargs", "RuntimeError:noargs"]
+             "ValueError:noargs", "AssertionError:noargs", "queue.Empty:noargs", "StopIteration:noargs", "RuntimeError:noargs",
+             "OddStr", "OddRepr", "OddStr:noargs"]
 KINDS_NAMED = ["function", "method", "lambda"]          # callables with a __name__
 KINDS_UNNAMED = ["partial", "object"]                    # legitimate callables without a __name__
 
@@ -938,6 +953,11 @@ def _intervention_once(case):
                 viol.append({"key": "intervention|%s|association-unusable-afterwards" % target,
                              "detail": "%s: follow-up C-ECHO status %r, requestor released=%r, acceptor %r" % (
                                  what, obs["echo"], obs["released"], acc_flags)})
+    if excname.split(":")[0] in ("OddStr", "OddRepr"):
+        # an exception object that cannot be formatted is its own class of input: keyed apart so that a listed finding about it
+        # can never hide a failure with ordinary exceptions
+        for v in viol:
+            v["key"] = v["key"].replace("intervention|", "intervention|unformattable-exception|", 1)
     seen = set()
     viol = [v for v in viol if not (v["key"] in seen or seen.add(v["key"]))]
     return {"key": "|".join([target, shape, excname]), "nontrivial": bool(st["raised"]), "sample": sample, "violations": viol,
